@@ -558,6 +558,172 @@ pub fn gc_case(inp: &Input, cfg: &Cfg) -> Value {
     })
 }
 
+/// GC on a module that was *built or edited through the API* (C06 / C07): functions made by FunctionBuilder with
+/// multi-value signatures and blocks, some exported and some not, replacements of exported / imported functions.
+/// The module is emitted once as it is (that binary is the "input" of the case), then GC'd and emitted again; sigma
+/// composes the two emit-time index maps through the arena ids.
+pub fn built_gc_case(seed: u64, k: u64) -> Value {
+    use rand::Rng;
+    use walrus::ir::InstrSeqType;
+    use walrus::{FunctionBuilder, ValType};
+    let mut r = gen::rng(seed.wrapping_mul(104729).wrapping_add(k));
+    let id = format!("built-{}", k);
+    let source = format!("built:{}:{}", seed, k);
+    let fail = |outcome: String| json!({"id": id, "source": source, "outcome": outcome, "in_valid": true, "out_valid": false, "out_error": "", "inm": AbsModule::default(), "outm": AbsModule::default(),
+                                        "sigma": run::Sigma::default(), "extra_roots": [], "gc2_same": true, "gc2_detail": "", "decl_only_passive": []});
+    let cfg = Cfg { probe: false, ..Default::default() };
+    let mut m = if r.gen_bool(0.5) {
+        let mut o = profile_opts("small");
+        o.customs = false;
+        let (g, _) = gen::gen_valid(seed.wrapping_add(k), &o);
+        match run::parse(&g.bytes, &cfg) {
+            Ok(p) => p.module,
+            Err(e) => return fail(format!("parse-{}", e)),
+        }
+    } else {
+        walrus::Module::default()
+    };
+    let built: Result<(), String> = std::panic::catch_unwind(std::panic::AssertUnwindSafe(|| {
+        let vts = [ValType::I32, ValType::I64, ValType::F32, ValType::F64];
+        let push = |b: &mut walrus::InstrSeqBuilder, t: &ValType| match t {
+            ValType::I32 => drop(b.i32_const(1)),
+            ValType::I64 => drop(b.i64_const(2)),
+            ValType::F32 => drop(b.f32_const(3.0)),
+            _ => drop(b.f64_const(4.0)),
+        };
+        let mut made: Vec<(walrus::FunctionId, Vec<ValType>, usize)> = vec![];
+        for j in 0..r.gen_range(1..5) {
+            let params: Vec<ValType> = (0..r.gen_range(0..3)).map(|_| vts[r.gen_range(0..4)]).collect();
+            let results: Vec<ValType> = (0..r.gen_range(0..4)).map(|_| vts[r.gen_range(0..4)]).collect();
+            let args: Vec<walrus::LocalId> = params.iter().map(|t| m.locals.add(*t)).collect();
+            let mut b = FunctionBuilder::new(&mut m.types, &params, &results);
+            // a block with its own (possibly multi-value) type
+            let (bp, br): (Vec<ValType>, Vec<ValType>) = ((0..r.gen_range(0..3)).map(|_| vts[r.gen_range(0..4)]).collect(), (0..r.gen_range(0..3)).map(|_| vts[r.gen_range(0..4)]).collect());
+            let use_block = r.gen_bool(0.6);
+            let bty = InstrSeqType::new(&mut m.types, &bp, &br);
+            let callee = if !made.is_empty() && r.gen_bool(0.5) { Some(made[r.gen_range(0..made.len())].clone()) } else { None };
+            {
+                let mut body = b.func_body();
+                if use_block {
+                    for t in &bp {
+                        push(&mut body, t);
+                    }
+                    body.block(bty, |blk| {
+                        for _ in &bp {
+                            blk.drop();
+                        }
+                        for t in &br {
+                            push(blk, t);
+                        }
+                    });
+                    for _ in &br {
+                        body.drop();
+                    }
+                }
+                if let Some((f, ps, nres)) = &callee {
+                    for t in ps {
+                        push(&mut body, t);
+                    }
+                    body.call(*f);
+                    for _ in 0..*nres {
+                        body.drop();
+                    }
+                }
+                for a in &args {
+                    body.local_get(*a).drop();
+                }
+                for t in &results {
+                    push(&mut body, t);
+                }
+            }
+            let f = b.finish(args, &mut m.funcs);
+            if r.gen_bool(0.6) {
+                m.exports.add(&format!("b{}", j), f);
+            }
+            made.push((f, params, results.len()));
+        }
+        // replacement edits on what the module already had
+        let exported: Vec<usize> = m.exports.iter().filter_map(|e| match e.item { walrus::ExportItem::Function(f) if matches!(m.funcs.get(f).kind, walrus::FunctionKind::Local(_)) => Some(f.index()), _ => None }).collect();
+        if !exported.is_empty() && r.gen_bool(0.5) {
+            let f = exported[r.gen_range(0..exported.len())];
+            crate::edits::apply(&mut m, &json!({"op": "replace_exported", "id": f, "refs": []}));
+        }
+        let imported: Vec<usize> = m.funcs.iter().filter(|f| matches!(f.kind, walrus::FunctionKind::Import(_))).map(|f| f.id().index()).collect();
+        if !imported.is_empty() && r.gen_bool(0.5) {
+            let f = imported[r.gen_range(0..imported.len())];
+            crate::edits::apply(&mut m, &json!({"op": "replace_imported", "id": f, "refs": []}));
+        }
+    }))
+    .map_err(|p| format!("build-panic:{}", run::short(&run::panic_msg(p))));
+    if let Err(e) = built {
+        return fail(e);
+    }
+    let e1 = match run::emit(&mut m, true) {
+        Ok(e) => e,
+        Err(e) => return fail(format!("plain-emit-{}", e)),
+    };
+    if let Err(e) = run::gc(&mut m) {
+        return fail(format!("gc-{}", e));
+    }
+    let e2 = match run::emit(&mut m, true) {
+        Ok(e) => e,
+        Err(e) => return fail(format!("emit-{}", e)),
+    };
+    let gc2_same = run::gc(&mut m).is_ok() && run::emit(&mut m, false).map(|e| e.bytes == strip_probe(&e2.bytes)).unwrap_or(false);
+    // index in the plain binary -> arena id
+    fn inv(pairs: &[(i32, i32)]) -> Vec<i32> {
+        let n = pairs.iter().map(|p| p.1 + 1).max().unwrap_or(0).max(0) as usize;
+        let mut v = vec![-1; n];
+        for (id, idx) in pairs {
+            if *idx >= 0 {
+                v[*idx as usize] = *id;
+            }
+        }
+        v
+    }
+    let maps = run::ParseMaps { func: inv(&e1.emit.func), ty: inv(&e1.emit.ty), table: inv(&e1.emit.table), memory: inv(&e1.emit.memory), global: inv(&e1.emit.global), elem: inv(&e1.emit.elem), data: inv(&e1.emit.data), ..Default::default() };
+    let sigma = run::sigma(&maps, &e2.emit);
+    let in_bytes = strip_probe(&e1.bytes);
+    let out_bytes = strip_probe(&e2.bytes);
+    let mut inm = absmod::project(&in_bytes).unwrap_or_default();
+    let decl_only_passive = declared_only_by_passive(&inm);
+    for f in inm.funcs.iter_mut() {
+        f.refs = f.live_refs.clone();
+    }
+    let v = absmod::validate(&out_bytes);
+    json!({"id": id, "source": source, "outcome": "ok", "in_valid": absmod::validate(&in_bytes).is_ok(), "out_valid": v.is_ok(), "out_error": run::short(&v.err().unwrap_or_default()),
+           "inm": strip_ops(inm), "outm": absmod::project(&out_bytes).map(strip_ops).unwrap_or_default(), "sigma": sigma, "extra_roots": [],
+           "gc2_same": gc2_same, "gc2_detail": "", "decl_only_passive": decl_only_passive})
+}
+
+/// the binary without the probe's (empty) custom section
+fn strip_probe(bytes: &[u8]) -> Vec<u8> {
+    let mut out = bytes[..8.min(bytes.len())].to_vec();
+    for p in wasmparser::Parser::new(0).parse_all(bytes) {
+        let Ok(p) = p else { break };
+        if let wasmparser::Payload::CustomSection(c) = &p {
+            if c.name() == run::PROBE_NAME {
+                continue;
+            }
+        }
+        if let Some((id, range)) = p.as_section() {
+            out.push(id);
+            let mut n = range.end - range.start;
+            loop {
+                let b = (n & 0x7f) as u8;
+                n >>= 7;
+                if n == 0 {
+                    out.push(b);
+                    break;
+                }
+                out.push(b | 0x80);
+            }
+            out.extend_from_slice(&bytes[range]);
+        }
+    }
+    out
+}
+
 // ---- lifecycle histories (C08, C12, C14) -----------------------------------------------------
 
 fn held_customs(m: &walrus::Module) -> Vec<String> {
